@@ -36,26 +36,32 @@ Definition labels_of (lab : labelling) (ids : list Z) : list Z :=
   | LBadMap | LEmptyMap => []
   end.
 
-(* partitions[part][..].append(..), table.py:2497-2502: a python dict keeps the labels in
-   order of first insertion; a bucket is the list of positions of its vectors *)
-Fixpoint group_add (g : list (Z * list nat)) (l : Z) (i : nat) : list (Z * list nat) :=
+(* what iter(dense=False) yields per vector: id, values, metadata (None when the axis has none) *)
+Definition vrec := (Z * list Z * Tree)%type.
+Definition v_id (v : vrec) : Z := fst (fst v).
+Definition v_row (v : vrec) : list Z := snd (fst v).
+Definition v_md (v : vrec) : Tree := snd v.
+Definition vrecs (t : table) : list vrec :=
+  combine (combine (oids t) (mat t)) (md_list (omd t) (nobs t)).
+
+(* partitions[part][0..2].append(id_, vals, md), table.py:2497-2502: a python dict keeps the
+   labels in order of first insertion; a bucket is the list of the vectors appended to it *)
+Fixpoint group_add (g : list (Z * list vrec)) (l : Z) (v : vrec) : list (Z * list vrec) :=
   match g with
-  | [] => [(l, [i])]
-  | (l', b) :: r => if Z.eqb l l' then (l', b ++ [i]) :: r else (l', b) :: group_add r l i
+  | [] => [(l, [v])]
+  | (l', b) :: r => if Z.eqb l l' then (l', b ++ [v]) :: r else (l', b) :: group_add r l v
   end.
 
-Definition group_step (ignore_none : bool) (g : list (Z * list nat)) (il : nat * Z) :=
-  if ignore_none && Z.eqb (snd il) NONE_LABEL then g else group_add g (snd il) (fst il).
+Definition group_step (ignore_none : bool) (g : list (Z * list vrec)) (lv : Z * vrec) :=
+  if ignore_none && Z.eqb (fst lv) NONE_LABEL then g else group_add g (fst lv) (snd lv).
 
-Definition groups (labels : list Z) (ignore_none : bool) : list (Z * list nat) :=
-  fold_left (group_step ignore_none) (combine (seq 0 (length labels)) labels) [].
+Definition groups (labels : list Z) (vs : list vrec) (ignore_none : bool) : list (Z * list vrec) :=
+  fold_left (group_step ignore_none) (combine labels vs) [].
 
 (* table.py:2506-2525 for axis = observation (rows): the vectors, ids and metadata of the
    bucket, the complete other axis with a copy of its metadata, the type of self *)
-Definition part_rows (t : table) (b : list nat) : table :=
-  mkT (map (fun i => nth i (oids t) 0%Z) b) (sids t) (map (fun i => nth i (mat t) []) b)
-      (ctor_md (Some (map (fun i => nth i (md_list (omd t) (nobs t)) md_none) b)))
-      (ctor_md (smd t)) (ttype t).
+Definition part_rows (t : table) (b : list vrec) : table :=
+  mkT (map v_id b) (sids t) (map v_row b) (ctor_md (Some (map v_md b))) (ctor_md (smd t)) (ttype t).
 
 Definition lab_error (lab : labelling) : option Z :=
   match lab with LBadMap => Some E_VALUE | LEmptyMap => Some E_OTHER | _ => None end.
@@ -69,7 +75,7 @@ Definition partition_t (t : table) (a : axis) (lab : labelling) (ignore_none rem
     ROk (map (fun g => (fst g,
                         let p := orient a (part_rows o (snd g)) in
                         if remove_empty then remove_empty_whole p else p))
-             (groups (labels_of lab (oids o)) ignore_none))
+             (groups (labels_of lab (oids o)) (vrecs o) ignore_none))
   end.
 
 (* ---- collapse ---- *)
@@ -86,9 +92,9 @@ Definition collapsed_md (ids : list Z) : Tree := L [I 7; L (map I ids)].
    TableException. *)
 Definition collapse_rows (o : table) (labels : list Z) (norm : bool) (min_group : Z) (incl_md : bool)
   : result collapsed :=
-  let gs := filter (fun g => Z.leb min_group (Z.of_nat (length (snd g)))) (groups labels false) in
-  let rows := map (fun g => col_sums (nsamp o) (map (fun i => nth i (mat o) []) (snd g))) gs in
-  let mds := map (fun g => collapsed_md (map (fun i => nth i (oids o) 0%Z) (snd g))) gs in
+  let gs := filter (fun g => Z.leb min_group (Z.of_nat (length (snd g)))) (groups labels (vrecs o) false) in
+  let rows := map (fun g => col_sums (nsamp o) (map v_row (snd g))) gs in
+  let mds := map (fun g => collapsed_md (map v_id (snd g))) gs in
   let divs := map (fun g => if norm then Z.of_nat (length (snd g)) else 1%Z) gs in
   match gs, sids o with
   | [], _ :: _ => RErr E_TABLE
